@@ -126,6 +126,7 @@ pub fn run_extra(kind: &str, l: &[Sx]) -> String {
         "stext" => stext_case(l),
         "lay" => lay_case(l),
         "uniclass" => uniclass(atom(&l[2]).parse().unwrap(), atom(&l[3]).parse().unwrap()),
+        "unicase" => unicase(atom(&l[2]).parse().unwrap(), atom(&l[3]).parse().unwrap()),
         _ => panic!("unknown case kind {kind}"),
     }
 }
@@ -352,6 +353,25 @@ fn uniclass(lo: u32, hi: u32) -> String {
         out.join(",")
     }
     format!("R=A:{};N:{}", ranges(lo, hi, char::is_alphabetic), ranges(lo, hi, char::is_numeric))
+}
+
+// every code point of the range whose lower- or upper-case mapping (char::to_lowercase / to_uppercase, as str::to_lowercase applies them outside the final-sigma rule) is not the identity
+fn unicase(lo: u32, hi: u32) -> String {
+    let mut low = vec![];
+    let mut upp = vec![];
+    for c in lo..=hi {
+        if let Some(ch) = char::from_u32(c) {
+            let l: Vec<u32> = ch.to_lowercase().map(|x| x as u32).collect();
+            let u: Vec<u32> = ch.to_uppercase().map(|x| x as u32).collect();
+            if l != vec![c] {
+                low.push(format!("{}>{}", c, l.iter().map(|x| x.to_string()).collect::<Vec<_>>().join(".")));
+            }
+            if u != vec![c] {
+                upp.push(format!("{}>{}", c, u.iter().map(|x| x.to_string()).collect::<Vec<_>>().join(".")));
+            }
+        }
+    }
+    format!("R=L:{};U:{}", low.join(","), upp.join(","))
 }
 
 // ---------- front end: expected results and re-rendering ----------
